@@ -324,7 +324,11 @@ pub fn fail_real(c: &RealFailCase, stats: &mut Stats) -> Result<(), String>
 {
     use crate::verif::cmd::Instr;
     let mut w = RealWorld::new(&c.graph)?;
-    let f = gen::pick(c.rule, w.model.rules.len());
+    // rules that have dependents are listed three more times: a failure there has something to cancel
+    let n = w.model.rules.len();
+    let mut choice: Vec<usize> = (0..n).collect();
+    for _ in 0..3 { choice.extend((0..n).filter(|i| !w.model.dependents_of_rule(*i).is_empty())); }
+    let f = choice[gen::pick(c.rule, choice.len())];
     let flag = "die.flag".to_string();
     {
         let r = &mut w.model.rules[f];
